@@ -54,6 +54,7 @@ def tokOf (j : Json) : Tok :=
   | "deep" => { kind := .deep, fails := fails }
   | "dc" => { kind := .dc (getBool j "nested") (getBool j "onAction") (getBool j "hasPrev"), fails := fails }
   | "pc" => { kind := .printConfig (flagsOf ((getObj? j "flags").getD (Json.mkObj []))), fails := fails }
+  | "cfg" => { kind := .cfg (getBool j "dumpFails"), fails := fails }
   | "help" => { kind := .help, fails := fails }
   | "class_help" => { kind := .classHelp (optBool j "trailing"), fails := fails }
   | _ => { kind := .plain false, fails := fails }
@@ -66,12 +67,13 @@ def vtokOf (j : Json) : VTok :=
 
 def tailOf (j : Json) : Tail :=
   { unrec := getBool j "unrec", subMissing := getBool j "subMissing", lateFail := getBool j "lateFail",
-    clsFinal := getBool j "clsFinal", dcFinal := getBool j "dcFinal", typed := getBool j "typed" true }
+    clsFinal := getBool j "clsFinal", dcFinal := getBool j "dcFinal", typed := getBool j "typed" true,
+    sdFails := getBool j "sdFails", sdEscapes := getBool j "sdEscapes" }
 
 def kwOf (j : Json) : KW := { env := optBool j "env", defaults := getBool j "defaults" true }
 
 def cfgOf (j : Json) : CfgArg :=
-  { id := getNat j "id", invalid := getBool j "invalid", tail := tailOf ((getObj? j "tail").getD (Json.mkObj [])) }
+  { id := getNat j "id", invalid := getBool j "invalid", late := getBool j "late", stripFails := getBool j "stripFails", tail := tailOf ((getObj? j "tail").getD (Json.mkObj [])) }
 
 def opOf (j : Json) : Op :=
   match getStr j "t" with
@@ -86,7 +88,7 @@ def opOf (j : Json) : Op :=
   | "get_defaults" => .getDefaults
   | "dump" =>
     let dk := (getObj? j "dk").getD (Json.mkObj [])
-    .dump (cfgOf j) { skipValidation := getBool dk "skip_validation", skipNone := getBool dk "skip_none" true }
+    .dump (cfgOf j) { skipValidation := getBool dk "skip_validation", skipNone := getBool dk "skip_none" true } (getBool j "skip_default")
   | "validate" => .validate (cfgOf j)
   | "instantiate" => .instantiate (cfgOf j)
   | _ => .formatHelp
